@@ -437,9 +437,21 @@ def hadamard3d (a b : V3 α) (s : α) : V3 α :=
 def padRow (row : V1 α) (n off : Nat) : V1 α :=
   (List.range n).map (fun j => if off ≤ j then (L.get? (row.take n) (j - off)).getD 0 else 0)
 
+/-- one padded channel: `ih` rows of `iw` values; source row `i - dh` (cropped to `ih` rows) shifted by `dw` -/
+def padChannel (ch : V2 α) (ih iw dh dw : Nat) : V2 α :=
+  (List.range ih).map (fun i =>
+    if dh ≤ i then
+      match L.get? (ch.take ih) (i - dh) with
+      | some row => padRow row iw dw
+      | none => List.replicate iw 0
+    else List.replicate iw 0)
+
+/-- would a write `padded[c][h + dh][w + dw]` leave the target? (only possible for ragged data) -/
+def padOutOfRange (data : V3 α) (ih iw dh dw : Nat) : Bool :=
+  data.any (fun ch => (ch.take ih).any (fun row => (row.take iw).length + dw > iw) || (ch.take ih).length + dh > ih)
+
 /-- `tensor::pad3d`: centre `data` in a zero tensor of spatial size `into`, cropping from the end when
-    smaller.  An offset plus index beyond the target is an index panic in Rust; it cannot occur because
-    the offset is `(into - len)/2` only when `into > len`. -/
+    smaller.  The offsets are `(into - len)/2` when `into > len` (read off channel 0), else 0. -/
 def pad3d (data : V3 α) (ih iw : Nat) : Except Err (V3 α) :=
   match data with
   | (r :: m) :: _ =>
@@ -447,16 +459,8 @@ def pad3d (data : V3 α) (ih iw : Nat) : Except Err (V3 α) :=
     let w0 := r.length
     let dh := if ih > h0 then (ih - h0) / 2 else 0
     let dw := if iw > w0 then (iw - w0) / 2 else 0
-    -- rows beyond `into.0` are cropped; a ragged row longer than the target after the offset panics
-    if data.any (fun ch => (ch.take ih).any (fun row => (row.take iw).length + dw > iw) || (ch.take ih).length + dh > ih)
-    then .error .index else
-    .ok (data.map (fun ch =>
-      (List.range ih).map (fun i =>
-        if dh ≤ i then
-          match L.get? (ch.take ih) (i - dh) with
-          | some row => padRow row iw dw
-          | none => List.replicate iw 0
-        else List.replicate iw 0)))
+    if padOutOfRange data ih iw dh dw then .error .index
+    else .ok (data.map (fun ch => padChannel ch ih iw dh dw))
   | _ => .error .index
 
 /-- `Tensor::argmax` via `max_by(partial_cmp().unwrap())`: last maximal index; NaN or empty → panic -/
